@@ -31,7 +31,8 @@ fn usage() -> ! {
     svcfile <cases.ndjson>                the same projection of unit texts written by the real binary\n\
     wire <cases.ndjson>                   DevInputWriter::send / DevInputReader::next over a pipe\n\
     loop <schedules.ndjson>               run the real per-device loop under scripted schedules\n\
-    supervise <schedules.ndjson>          run the real --auto-all-keyboards supervisor (inside the namespace lib/e3.py prepares)");
+    supervise <schedules.ndjson>          run the real --auto-all-keyboards supervisor (inside the namespace lib/e3.py prepares)
+    fleet <cases.ndjson>                  run the real --all-keyboards / --dev-file start-up and join (same namespace)");
   std::process::exit(2);
 }
 
@@ -56,6 +57,7 @@ fn main() {
     "wire" => { if rest.len() != 1 { usage(); } cases::cmd_wire(&rest[0]) },
     "loop" => { if rest.len() != 1 { usage(); } looprun::cmd_loop(&rest[0]) },
     "supervise" => { if rest.len() != 1 { usage(); } supervise::cmd_supervise(&rest[0]) },
+    "fleet" => { if rest.len() != 1 { usage(); } supervise::cmd_fleet(&rest[0]) },
     _ => usage()
   }
 }
